@@ -25,14 +25,14 @@ outs = []
 tmpl = open(os.path.join(here, "c18", "curve.tmpl")).read()
 # (path, identifier, full registry?, MiMC id, Poseidon2 id)
 CURVES = [
-    ("bn254", "Bn254", True, "MIMC_BN254", "POSEIDON2_BN254"),
-    ("bls12-381", "Bls12381", True, "MIMC_BLS12_381", "POSEIDON2_BLS12_381"),
-    ("bw6-761", "Bw6761", False, "MIMC_BW6_761", "POSEIDON2_BW6_761"),
-    ("bls24-315", "Bls24315", False, "MIMC_BLS24_315", "POSEIDON2_BLS24_315"),
+    ("bn254", "Bn254", True, "MIMC_BN254", "POSEIDON2_BN254", "BN254"),
+    ("bls12-381", "Bls12381", True, "MIMC_BLS12_381", "POSEIDON2_BLS12_381", "BLS12_381"),
+    ("bw6-761", "Bw6761", False, "MIMC_BW6_761", "POSEIDON2_BW6_761", "BW6_761"),
+    ("bls24-315", "Bls24315", False, "MIMC_BLS24_315", "POSEIDON2_BLS24_315", "BLS24_315"),
 ]
-for path, ident, full, mimc, pos2 in CURVES:
+for path, ident, full, mimc, pos2, eccid in CURVES:
     s = (tmpl.replace("@@PATH@@", path).replace("@@ID@@", ident).replace("@@FULL@@", "true" if full else "false")
-         .replace("@@MIMC@@", mimc).replace("@@POS2@@", pos2))
+         .replace("@@MIMC@@", mimc).replace("@@POS2@@", pos2).replace("@@ECCID@@", eccid))
     out = os.path.join(here, "c18", "zz_%s_gen_test.go" % path.replace("-", ""))
     open(out, "w").write(s)
     outs.append(out)
